@@ -134,7 +134,8 @@ def run(ctx):
     ctx.coverage["traces_validated_against_impl"] = len(hs) - len({i for i, _ in bad})
     ctx.extra.update({"histories": len(hs), "op_mix": _mix(hs), "histories_with_reuse_or_idle_delivery": reuse})
     ctx.assume += ["'once the folder's modification time has advanced' = the agent's write moves the directory mtime to a "
-                   "later whole second than the mailbox's stored mtime (the harness does that with utime)",
+                   "later time than the mailbox's stored mtime (the harness moves it 2 s ahead with utime; since fix 782ae6b the server "
+                   "compares at the file system's resolution, before that in whole seconds)",
                    "the content of .mh_sequences is not part of Model/Mbox.v: that clause is decided by the oracle on the real file"]
 
 
